@@ -531,3 +531,455 @@ def install_lemmas():
 
 
 install_lemmas()
+
+
+# ---------------------------------------------------------------------------
+# dominated operations
+# ---------------------------------------------------------------------------
+def min_end_on(h, d, L, m, val, isinf, upto=None, inner=None):
+    """(isinf, val) = minimum of st + duration over the pairs (operation of L, eligible machine
+    = m) among operations < upto (plus machines < q0 of operation r0); +inf if there is none"""
+    D = Disp(h, d)
+    r, q = bv("re"), bv("qe")
+    n = h.len(L) if upto is None else upto
+    o = h.at(L, r)
+    on_m = z3.And(rng(r, 0, n), rng(q, 0, D.it.nmach(o)), D.it.mach(o, q) == m)
+    end = st_of(D, o, m) + D.it.dur(o)
+    some = [z3.Exists([r, q], on_m)]
+    le = [forall([r, q], imp(on_m, val <= end), patterns=[D.it.mach(h.at(L, r), q)])]
+    hit = [z3.Exists([r, q], z3.And(on_m, val == end))]
+    if inner is not None:
+        r0, q0 = inner
+        o0 = h.at(L, r0)
+        on0 = z3.And(rng(q, 0, q0), D.it.mach(o0, q) == m)
+        end0 = st_of(D, o0, m) + D.it.dur(o0)
+        some.append(z3.Exists([q], on0))
+        le.append(forall([q], imp(on0, val <= end0)))
+        hit.append(z3.Exists([q], z3.And(on0, val == end0)))
+    return z3.And(isinf == z3.Not(z3.Or(some)), imp(z3.Not(isinf), z3.And(z3.And(le), z3.Or(hit))))
+
+
+@register
+class GetMinMachineEndTimes(Contract):
+    name = "_get_min_machine_end_times"
+    ret = LIST(XINT)
+    params = {"available_operations": OPS}
+    properties = ("C07",)
+    relevant = {n: SHAPE + ["inst-machines"] for n in ("ends-so-far", "ends-inner", "op-is-current",
+                                                       "one-entry-per-machine", "earliest-completion-per-machine")}
+
+    def requires(self, c):
+        return reach(c.h0, c["dispatcher"]) + ops_wf(c.h0, c["dispatcher"], c["available_operations"])
+
+    def modifies(self, c):
+        return Frame(alloc_lists=True)
+
+    def ensures(self, c):
+        h0, h, d, L, out = c.h0, c.h, c["dispatcher"], c["available_operations"], c.result
+        D = Disp(h0, d)
+        m = bv("m")
+        return [("one-entry-per-machine", z3.And(out >= h0.alloc, out < h.alloc, h.len(out) == D.M)),
+                ("earliest-completion-per-machine", forall([m], imp(rng(m, 0, D.M), min_end_on(
+                    h0, d, L, m, h.at(out, m), h.atx(out, m))),
+                    patterns=[h.at(out, m), z3.Select(h.elxarr(out), m)]))]
+
+    @property
+    def loops(self):
+        def ends(k, upto, inner):
+            h0, h, d, L = k.h0, k.h, k["dispatcher"], k["available_operations"]
+            D = Disp(h0, d)
+            out = k.v("end_times_per_machine")
+            m = bv("m")
+            return z3.And(out >= h0.alloc, h.len(out) == D.M,
+                          forall([m], imp(rng(m, 0, D.M), min_end_on(h0, d, L, m, h.at(out, m), h.atx(out, m), upto,
+                                                                     inner)),
+                                 patterns=[h.at(out, m), z3.Select(h.elxarr(out), m)]))
+
+        def outer(k):
+            return [("ends-so-far", ends(k, k.i, None))]
+
+        def inner(k):
+            h0, L = k.h0, k["available_operations"]
+            r0 = k.outer[-1]
+            return [("op-is-current", z3.And(k.v("op") == h0.at(L, r0), rng(r0, 0, h0.len(L)))),
+                    ("ends-inner", ends(k, r0, (r0, k.i)))]
+
+        def mod(k):
+            return Frame(lists=[k.v("end_times_per_machine")])
+        return {0: LoopSpec("for op in available_operations", outer, mod),
+                1: LoopSpec("for machine_id in op.machines", inner, mod)}
+
+
+def crit_non_dominated(h, d, L):
+    """starts on some eligible machine before the earliest completion there"""
+    D = Disp(h, d)
+
+    def crit(t):
+        def c(o):
+            q, r, q2 = bv("q"), bv("rd"), bv("qd")
+            m = D.it.mach(o, q)
+            o2 = h.at(L, r)
+            return z3.Exists([q], z3.And(rng(q, 0, D.it.nmach(o)), forall([r, q2], imp(
+                z3.And(rng(r, 0, h.len(L)), rng(q2, 0, D.it.nmach(o2)), D.it.mach(o2, q2) == m),
+                st_of(D, o, m) < st_of(D, o2, m) + D.it.dur(o2)))))
+        return c
+    return crit
+
+
+def first_zero_duration(h, d, L, z):
+    D = Disp(h, d)
+    r = bv("rz")
+    return z3.And(rng(z, 0, h.len(L)), D.it.dur(h.at(L, z)) == 0,
+                  forall([r], imp(rng(r, 0, z), D.it.dur(h.at(L, r)) > 0)))
+
+
+@register
+class FilterDominatedOperations(_Filter):
+    name = "filter_dominated_operations"
+
+    def crit(self, h, d, L):
+        return crit_non_dominated(h, d, L)
+
+    def ensures(self, c):
+        h0, h, d, L, out = c.h0, c.h, c["dispatcher"], c["operations"], c.result
+        D = Disp(h0, d)
+        z, r = bv("z"), bv("r")
+        has_zero = z3.Exists([r], z3.And(rng(r, 0, h0.len(L)), D.it.dur(h0.at(L, r)) == 0))
+        full = filter_post(h0, h, d, L, out, self.crit(h0, d, L), name=self.name)
+        res = []
+        for nm, p in full:
+            if nm in ("keeps-every-operation-meeting-the-criterion", "keeps-only-operations-meeting-the-criterion"):
+                res.append((nm, imp(z3.Not(has_zero), p)))   # documented shortcut: criterion only for positive durations
+            else:
+                res.append((nm, p))
+        res.append(("zero-duration-shortcut", imp(has_zero, z3.Exists([z], z3.And(
+            first_zero_duration(h0, d, L, z), h.len(out) == 1, h.at(out, 0) == h0.at(L, z))))))
+        return res
+
+    @property
+    def loops(self):
+        def ends_known(k):
+            h0, h, d, L = k.h0, k.h, k["dispatcher"], k["operations"]
+            D = Disp(h0, d)
+            me = k.v("min_machine_end_times")
+            m = bv("m")
+            return z3.And(me > 0, me != k.v("non_dominated_operations"), h.len(me) == D.M,
+                          forall([m], imp(rng(m, 0, D.M), min_end_on(h0, d, L, m, h.at(me, m), h.atx(me, m))),
+                                 patterns=[h.at(me, m), z3.Select(h.elxarr(me), m)]))
+
+        def outer(k):
+            h0, d, L = k.h0, k["dispatcher"], k["operations"]
+            D = Disp(h0, d)
+            r = bv("rp")
+            extra = [("helper-state", ends_known(k)),
+                     ("no-zero-duration-so-far", forall([r], imp(rng(r, 0, k.i), D.it.dur(h0.at(L, r)) > 0)))]
+            return filter_loop_inv(k, L, "non_dominated_operations", self.opaque(h0, d, L)[0], extra)
+
+        def inner(k):
+            h0, h, d, L = k.h0, k.h, k["dispatcher"], k["operations"]
+            D = Disp(h0, d)
+            r0 = k.outer[-1]
+            op = k.v("operation")
+            me = k.v("min_machine_end_times")
+            q, r = bv("qj"), bv("rp")
+            m = D.it.mach(op, q)
+            dominated_so_far = forall([q], imp(rng(q, 0, k.i), z3.Or(
+                z3.Not(h.atx(me, m)) & (st_of(D, op, m) >= h.at(me, m)), z3.BoolVal(False))))
+            # the outer invariant at index r0 still holds (nothing appended for this operation yet)
+            saved_i = k.i
+            k.i = r0
+            base = filter_loop_inv(k, L, "non_dominated_operations", self.opaque(h0, d, L)[0],
+                                   [("helper-state", ends_known(k)),
+                                    ("no-zero-duration-so-far", forall([r], imp(rng(r, 0, r0 + 1),
+                                                                               D.it.dur(h0.at(L, r)) > 0)))])
+            k.i = saved_i
+            return base + [("op-is-current", z3.And(op == h0.at(L, r0), rng(r0, 0, h0.len(L)))),
+                           ("dominated-on-the-machines-tried", dominated_so_far)]
+
+        def mod(k):
+            return Frame(fields={"$oidx": "ALL"}, lists=[k.v("non_dominated_operations")])
+        return {0: LoopSpec("for operation in operations", outer, mod),
+                1: LoopSpec("for machine_id in operation.machines", inner, mod)}
+
+    @property
+    def ghost_after(self):
+        return {"non_dominated_operations.append(operation)": record_index("non_dominated_operations")}
+
+
+# ---------------------------------------------------------------------------
+# abstract filter contract and composition
+# ---------------------------------------------------------------------------
+def abstract_filter_post(h0, h, d, L, out):
+    return [x for x in filter_post(h0, h, d, L, out, None, require_crit=False)]
+
+
+@register
+class AbstractFilter(Contract):
+    """what every ready-operations filter guarantees (each built-in filter's post-condition
+    contains these clauses literally): a new list that is a sub-list of its input -- same
+    order, no duplicates, no foreign operation -- and non-empty for a non-empty input"""
+    name = "abstract:ready_operations_filter"
+    abstract = True
+    ret = OPS
+    params = {"dispatcher": REF("Dispatcher"), "operations": OPS}
+
+    def requires(self, c):
+        return reach(c.h0, c["dispatcher"]) + ready_sorted(c.h0, c["dispatcher"], c["operations"])
+
+    def modifies(self, c):
+        return Frame(fields={"$oidx": "ALL"}, alloc_lists=True)
+
+    def ensures(self, c):
+        return abstract_filter_post(c.h0, c.h, c["dispatcher"], c["operations"], c.result)
+
+
+@register
+class CompositeFilter(Contract):
+    name = "create_composite_operation_filter.composite_pruning_function"
+    ret = OPS
+    params = {"operations": OPS}
+    properties = ("C06", "C07")
+    relevant = {n: SHAPE for n in _FILTER_CLAUSES + ["pruned-is-a-sublist-of-the-input", "filters-list"]}
+
+    def setup(self, eng, st, args):
+        # the closure variable: a list of filter callables, each under the abstract filter contract
+        from pyvc.values import CALLREF, Val
+        lst = fresh("filter_functions")
+        st.assume(z3.And(lst > 0, lst < st.heap.alloc, st.heap.len(lst) >= 0))
+        q = bv("qf")
+        st.assume(forall([q], imp(rng(q, 0, st.heap.len(lst)), st.heap.at(lst, q) != 0)))
+        self.globals = {"filter_functions": Val(LIST(CALLREF("abstract:ready_operations_filter")), lst)}
+
+    def requires(self, c):
+        return reach(c.h0, c["dispatcher"]) + ready_sorted(c.h0, c["dispatcher"], c["operations"])
+
+    def modifies(self, c):
+        return Frame(fields={"$oidx": "ALL"}, alloc_lists=True)
+
+    def _sub(self, h0, h, d, L, cur):
+        """cur is a sub-list of the input L (in h0), non-empty if L is"""
+        r, r2 = bv("r"), bv("r2")
+        return ready_sorted(h, d, cur, "result") + [
+            ("result-elements-come-from-the-input", forall([r], imp(rng(r, 0, h.len(cur)), z3.Exists(
+                [r2], z3.And(rng(r2, 0, h0.len(L)), h0.at(L, r2) == h.at(cur, r)))), patterns=[h.at(cur, r)])),
+            ("never-empties-a-non-empty-list", imp(h0.len(L) > 0, h.len(cur) > 0))]
+
+    def ensures(self, c):
+        return self._sub(c.h0, c.h, c["dispatcher"], c["operations"], c.result)
+
+    @property
+    def loops(self):
+        def inv(k):
+            h0, h, d, L = k.h0, k.h, k["dispatcher"], k["operations"]
+            fl = self.globals["filter_functions"].t
+            return self._sub(h0, h, d, L, k.v("pruned_operations")) + reach(h, d) + [
+                ("filters-list", z3.And(h.len(fl) == h0.len(fl), h.elarr(fl) == h0.elarr(fl))),
+                ("input-untouched", z3.And(h.len(L) == h0.len(L), h.elarr(L) == h0.elarr(L)))]
+
+        def mod(k):
+            return Frame(fields={"$oidx": "ALL"}, alloc_lists=True)
+        return {0: LoopSpec("for pruning_function in filter_functions", inv, mod)}
+
+
+# ---------------------------------------------------------------------------
+# C06: time only moves forward; filters keep the current time
+# ---------------------------------------------------------------------------
+def positive_durations(h, d):
+    D = Disp(h, d)
+    j, p = bv("jp"), bv("pp")
+    return forall([j, p], imp(z3.And(rng(j, 0, D.it.J), rng(p, 0, D.it.L(j))), D.it.dur(D.it.op(j, p)) > 0),
+                  patterns=[D.it.op(j, p)])
+
+
+def is_now(h, d, t):
+    """t is the current time of the unfiltered dispatcher: the minimum start time over the next
+    operation of every unfinished job and its machines; the makespan if every job is finished"""
+    D = Disp(h, d)
+    j, q = bv("jn"), bv("qn")
+    o = D.it.op(j, D.kj(j))
+    unfinished = z3.And(rng(j, 0, D.it.J), D.kj(j) < D.it.L(j))
+    some = z3.Exists([j], unfinished)
+    le = forall([j, q], imp(z3.And(unfinished, rng(q, 0, D.it.nmach(o))), t <= st_of(D, o, D.it.mach(o, q))),
+                patterns=[D.it.mach(o, q)])
+    hit = z3.Exists([j, q], z3.And(unfinished, rng(q, 0, D.it.nmach(o)), t == st_of(D, o, D.it.mach(o, q))))
+    return z3.If(some, z3.And(le, hit), ScheduleMakespan.spec(h, D.S, D.M, t))
+
+
+def install_c06_lemmas():
+    from .lemmas import lemma, after_call
+    from pyvc.values import Heap, Val, OPT
+
+    def dispatch_step():
+        from pyvc.engine import Ctx
+        from .core import _eff_machine
+        con = REGISTRY["Dispatcher.dispatch"]
+        d, o = fresh("d"), fresh("o")
+        mid = Val(OPT(INT), Val(INT, fresh("m")), fresh("m_none", z3.BoolSort()))
+        args = {"self": Val(REF("Dispatcher"), d), "operation": Val(REF("Operation"), o), "machine_id": mid}
+        h0, h1, pc = after_call(con, args, "N")
+        m = _eff_machine(Ctx(None, h0, h0, args))
+        return h0, h1, d, o, m, pc
+
+    @lemma("now-monotone", ("C06",))
+    def _now():
+        """an accepted dispatch never moves the (unfiltered) current time back, for every instance
+        (zero durations included); and every operation that was completed stays completed.
+        The proof is by cases on the pair attaining the new current time, with the existential
+        witnesses named explicitly (exists-elimination of hypotheses that are themselves proved)."""
+        h0, h1, d, o, m, pc = dispatch_step()
+        t0, t1 = fresh("t0"), fresh("t1")
+        D0, D1 = Disp(h0, d), Disp(h1, d)
+        it = D0.it
+        j0 = it.jid(o)
+        start = zmax(D0.mn(m), D0.jn(j0))
+        out = []
+        # step 1: the chosen machine is one of the operation's machines (witness qm)
+        qq = bv("qq")
+        elig = z3.Exists([qq], z3.And(rng(qq, 0, it.nmach(o)), it.mach(o, qq) == m))
+        out.append(("chosen-machine-is-eligible", pc, elig))
+        qm = fresh("qm")
+        pc1 = pc + [rng(qm, 0, it.nmach(o)), it.mach(o, qm) == m]
+        # step 2: the old current time is at most the start of the dispatched operation
+        out.append(("old-now-at-most-the-new-start", pc1 + [is_now(h0, d, t0)], t0 <= start))
+        # step 3: every start time the new state offers is >= the old one / the new start
+        j, q = fresh("j"), fresh("q")
+        o1 = D1.it.op(j, D1.kj(j))
+        unfinished1 = z3.And(rng(j, 0, it.J), D1.kj(j) < it.L(j), rng(q, 0, it.nmach(o1)))
+        st1 = st_of(D1, o1, D1.it.mach(o1, q))
+        out.append(("other-jobs-start-no-earlier", pc1 + [unfinished1, j != j0],
+                    z3.And(D0.kj(j) == D1.kj(j), D0.kj(j) < it.L(j), st1 >= st_of(D0, o1, it.mach(o1, q)))))
+        out.append(("successor-starts-after-the-dispatched-operation", pc1 + [unfinished1, j == j0], st1 >= start))
+        # step 4: conclusion, with the pair attaining the new current time named (j, q)
+        some1 = z3.Exists([bv("jn")], z3.And(rng(bv("jn"), 0, it.J), D1.kj(bv("jn")) < it.L(bv("jn"))))
+        facts = [is_now(h0, d, t0), t0 <= start]
+        out.append(("current-time-never-decreases:some-job-unfinished",
+                    pc1 + facts + [unfinished1, t1 == st1,
+                                   imp(j != j0, st1 >= st_of(D0, o1, it.mach(o1, q))), imp(j == j0, st1 >= start),
+                                   imp(j != j0, z3.And(D0.kj(j) == D1.kj(j), D0.kj(j) < it.L(j)))],
+                    t0 <= t1))
+        x1 = D1.x(m, D0.nS(m))
+        out.append(("current-time-never-decreases:all-finished",
+                    pc1 + facts + [z3.Not(some1), ScheduleMakespan.spec(h1, D1.S, D1.M, t1)], t0 <= t1))
+        mm, ii = fresh("mm"), fresh("ii")
+        x0 = D0.x(mm, ii)
+        out.append(("completed-stays-completed", pc1 + [t0 <= t1, rng(mm, 0, D0.M), rng(ii, 0, D0.nS(mm)),
+                                                        D0.end(x0) <= t0],
+                    z3.And(D1.x(mm, ii) == x0, D1.end(x0) <= t1)))
+        return out
+
+    @lemma("complete-now-is-makespan", ("C06",))
+    def _complete():
+        h = Heap(tag="M")
+        d, t = fresh("d"), fresh("t")
+        D = Disp(h, d)
+        pc = [p for _, p in reach(h, d)] + [D.n == D.it.N, is_now(h, d, t)]
+        return [("now-equals-makespan-when-complete", pc, ScheduleMakespan.spec(h, D.S, D.M, t))]
+
+    def keeps_now(name, needs_positive):
+        @lemma(f"filter-keeps-now:{name}", ("C06",))
+        def _l():
+            """the filter keeps an operation attaining the minimum start time, so the minimum start
+            time of its result equals that of its input (filtering never changes the current time).
+            Guided proof: the pair (rs, qs) attaining the minimum in the input is named; it meets the
+            filter's criterion, hence is kept at ghost index $oidx, hence attains the minimum in the
+            result; every start time in the result is one of the input's."""
+            from pyvc.engine import Ctx
+            con = REGISTRY[name]
+            d, L, out = fresh("d"), fresh("L"), fresh("out")
+            args = {"dispatcher": Val(REF("Dispatcher"), d), "operations": Val(OPS, L)}
+            h0, h1, pc = after_call(con, args, "F")
+            pc = list(pc) + [p for _, p in con.ensures(Ctx(None, h0, h1, args, Val(OPS, out)))]
+            D0, D1 = Disp(h0, d), Disp(h1, d)
+            it = D0.it
+            t = ms_term(h0, d, L)
+            rs, qs = fresh("rs"), fresh("qs")
+            os_ = h0.at(L, rs)
+            r, q = bv("r"), bv("q")
+            o_ = h0.at(L, r)
+            le0 = forall([r, q], imp(z3.And(rng(r, 0, h0.len(L)), rng(q, 0, it.nmach(o_))),
+                                     t <= st_of(D0, o_, it.mach(o_, q))), patterns=[it.mach(h0.at(L, r), q)])
+            pc += [h0.len(L) > 0, le0, rng(rs, 0, h0.len(L)), rng(qs, 0, it.nmach(os_)),
+                   t == st_of(D0, os_, it.mach(os_, qs))]
+            if needs_positive:
+                pc.append(positive_durations(h0, d))
+            obl = []
+            crit = con.crit(h0, d, L)(t)(os_)
+            obl.append(("the-operation-attaining-the-minimum-meets-the-criterion", pc, crit))
+            C, _ = con.opaque(h0, d, L)
+            idx = h1.get("$oidx", os_)
+            kept = z3.And(rng(idx, 0, h1.len(out)), h1.at(out, idx) == os_)
+            obl.append(("so-it-is-kept", pc + [crit], kept))
+            o1 = h1.at(out, idx)
+            attains = z3.And(rng(qs, 0, D1.it.nmach(o1)), t == st_of(D1, o1, D1.it.mach(o1, qs)))
+            obl.append(("so-the-minimum-is-attained-in-the-result", pc + [kept], attains))
+            r1, q1 = fresh("r1"), fresh("q1")
+            oo = h1.at(out, r1)
+            obl.append(("no-start-time-in-the-result-is-smaller",
+                        pc + [rng(r1, 0, h1.len(out)), rng(q1, 0, D1.it.nmach(oo))],
+                        t <= st_of(D1, oo, D1.it.mach(oo, q1))))
+            o_r = h1.at(out, r)
+            le1 = forall([r, q], imp(z3.And(rng(r, 0, h1.len(out)), rng(q, 0, D1.it.nmach(o_r))),
+                                     t <= st_of(D1, o_r, D1.it.mach(o_r, q))), patterns=[D1.it.mach(h1.at(out, r), q)])
+            obl.append(("result-has-the-same-minimum-start-time", [le1, kept, attains], is_min_start(h1, d, out, t)))
+            # as an equation between MinStart terms (used by the composition)
+            obl.append(("min-start-term-of-the-result-equals-that-of-the-input",
+                        [is_min_start(h1, d, out, t), ms_axiom(h1, d, out), h1.len(out) > 0],
+                        ms_term(h1, d, out) == t))
+            return obl
+        return _l
+    keeps_now("filter_non_idle_machines", False)
+    keeps_now("filter_non_immediate_operations", False)
+    keeps_now("filter_non_immediate_machines", False)
+    keeps_now("filter_dominated_operations", True)
+
+
+install_c06_lemmas()
+
+
+@register
+class BuiltinFilter(AbstractFilter):
+    """a built-in filter: the abstract filter contract plus `keeps the minimum start time` (for
+    instances with positive durations), which the four lemmas `filter-keeps-now:*` prove of each
+    built-in filter from its own contract"""
+    name = "abstract:builtin_filter"
+    lemma_deps = ("filter-keeps-now:filter_non_idle_machines", "filter-keeps-now:filter_non_immediate_operations",
+                  "filter-keeps-now:filter_non_immediate_machines", "filter-keeps-now:filter_dominated_operations")
+
+    def ensures(self, c):
+        h0, h, d, L, out = c.h0, c.h, c["dispatcher"], c["operations"], c.result
+        return AbstractFilter.ensures(self, c) + [
+            ("keeps-the-minimum-start-time", imp(z3.And(h0.len(L) > 0, positive_durations(h0, d)),
+                                                 ms_term(h, d, out) == ms_term(h0, d, L)))]
+
+
+@register
+class CompositeOfBuiltins(CompositeFilter):
+    """the same closure verified a second time, for a list of BUILT-IN filters: the composition
+    keeps the minimum start time of its input (C06: filtering never changes the current time)"""
+    name = "create_composite_operation_filter.composite_pruning_function$builtin"
+    properties = ("C06",)
+    relevant = dict(CompositeFilter.relevant, **{"keeps-the-minimum-start-time": SHAPE})
+
+    def setup(self, eng, st, args):
+        from pyvc.values import CALLREF, Val
+        lst = fresh("filter_functions")
+        st.assume(z3.And(lst > 0, lst < st.heap.alloc, st.heap.len(lst) >= 0))
+        q = bv("qf")
+        st.assume(forall([q], imp(rng(q, 0, st.heap.len(lst)), st.heap.at(lst, q) != 0)))
+        self.globals = {"filter_functions": Val(LIST(CALLREF("abstract:builtin_filter")), lst)}
+
+    def _keeps(self, h0, h, d, L, cur):
+        return ("keeps-the-minimum-start-time", imp(z3.And(h0.len(L) > 0, positive_durations(h0, d)),
+                                                    ms_term(h, d, cur) == ms_term(h0, d, L)))
+
+    def ensures(self, c):
+        return CompositeFilter.ensures(self, c) + [self._keeps(c.h0, c.h, c["dispatcher"], c["operations"], c.result)]
+
+    @property
+    def loops(self):
+        base = CompositeFilter.loops.fget(self)[0]
+
+        def inv(k):
+            return base.invariant(k) + [self._keeps(k.h0, k.h, k["dispatcher"], k["operations"],
+                                                    k.v("pruned_operations"))]
+        return {0: LoopSpec(base.header, inv, base.modifies)}
